@@ -43,7 +43,13 @@ def subtype_cause(r, t, T):
             if not okc:
                 failing.append(p)
         if any(p[0] in bases for p in failing):
-            return 'dependent-parameters'
+            # variance of the parameter(s) other parameters' bounds depend on
+            dep = set()
+            for p in params:
+                if p[2] is not None:
+                    dep |= terms.free_vars(p[2])
+            bv = sorted({('inv', 'cov', 'con')[p[1]] for p in params if p[0] in dep})
+            return 'dependent-parameters:base-' + '+'.join(bv)
         return 'argument[' + ','.join(sorted({('inv', 'cov', 'con')[p[1]] for p in failing})) + ']'
     return '%s/%s' % (kind_of(r, T), kind_of(t, T))
 
@@ -87,6 +93,26 @@ def judge_find_subtypes(rec, T, out, witness):
         out.ok(shape, nontrivial=len(res) > (1 if rec['include_self'] else 0))
 
 
+def related_without_variance(r, t, T):
+    """Are r and t related by plain inheritance alone, i.e. also when every
+    parameter is treated as invariant and projections only match themselves?"""
+    T2 = terms.Table(top=None)
+    T2.builtins = T.builtins
+    T2.kinds = T.kinds
+    T2.classes = {n: ([(p[0], terms.INV, p[2]) for p in ps], sups) for n, (ps, sups) in T.classes.items()}
+
+    def rigid(x):
+        if x[0] == 'w':
+            return ('c', '<proj%d>' % x[1], (rigid(x[2]),) if x[2] is not None else ())
+        if x[0] == 'c':
+            return ('c', x[1], tuple(rigid(a) for a in x[2]))
+        return x
+    try:
+        return bool(terms.refsub(rigid(r), rigid(t), T2) or terms.refsub(rigid(t), rigid(r), T2))
+    except (terms.Unknown, RecursionError, KeyError):
+        return True
+
+
 def judge_irrelevant(rec, T, out, witness):
     t, r = rec['etype'], rec['result']
     w = dict(witness, etype=terms.term_str(t), result=None if r is None else terms.term_str(r), etype_term=t)
@@ -127,8 +153,11 @@ def judge_irrelevant(rec, T, out, witness):
             cause = 'top'
         elif not (a0 or b0):
             cause = 'only-through-implicit-top'
+        elif r == tt:
+            cause = 'returned-the-query-itself'
         elif r[0] == 'c' and r[2]:
             cause = 'same-class-other-arguments' if (tt[0] == 'c' and tt[1] == r[1]) else 'other-generic-class'
+            cause += ':plain' if related_without_variance(r, tt, T) else ':through-variance'
         else:
             cause = kind_of(r, T)
         out.violation({'rule': 'irrelevant-is-related', 'api': 'find_irrelevant_type',
